@@ -30,6 +30,12 @@ CHECKS = {
   text="For every expression string of <= N scalar values (N=6 quick / 8 thorough) and 3/4-character holes inside nested parentheses, function calls and predicates, z3 decides (a) no accepted expression selects an expr-model variant whose evaluator arm is unimplemented!/todo!/panic!, (b) variants whose arm returns Err do not panic on the real code, (c) no production is entered more than 8 times at one position (no exponential re-parsing of parenthesised / nested expressions).",
   note="Partial: evaluation over a live document (parent of root/attribute, id(), sibling navigation) and the scalar functions' panic freedom are outside this check. Bounded lengths are small because every unsat verdict on the 12-level XPath grammar is expensive.",
   design="3/C06"),
+ "C08": dict(
+  technique="SMT (z3 QF_BV) over the S-grammar encoding of xml_xpath::expr::parse against a scannerless XPath 1.0 reference recognizer, one query per exact length plus keyword templates; operator sites checked structurally with solver reachability; eval_predicate executed by the S-kernel (z3 FP); counterexamples replayed",
+  category="model_checking",
+  text="For every string of <= N scalar values (N=6 quick / 8 thorough) and for templates carrying the long keywords (axis names, processing-instruction, node types, predicates, calls, operator chains) z3 decides both inclusions: every expression of the strict XPath 1.0 reference (optional white space between tokens, abbreviated and unabbreviated steps, node-type tests where a step may begin, redundant parentheses, the longest-token rule) is accepted completely, and everything accepted is in the lenient reference. Every binary operator token sits in the production of its XPath precedence level, operands come from the next level, and each site is reachable. [n] is decided equal to [position() = n] for every f64 n and every position <= 2^53 by symbolic execution of eval_predicate.",
+  note="Partial: equalities between evaluator runs on documents (// vs descendant-or-self::node(), ., .., @, omitted child::) and left-associativity of the evaluator folds need the evaluator over a live document and are outside. The operator-name-boundary deviation is a listed known finding.",
+  design="3/C08", engine="S-grammar + S-kernel"),
  "C09": dict(
   technique="source-level symbolic execution (S-kernel) of xpath func.rs / model.rs / comparison helpers with an XPath 1.0 spec interpreter running in the same path exploration + SMT (z3 FP/BV) per path; counterexamples replayed through xml_xpath::query",
   category="model_checking",
@@ -72,7 +78,7 @@ m = {
  "hooks": {"guard": "cargo feature `verif` of xml-info (no hook commit exists yet)", "enable": "path dependency with features=[\"verif\"]",
            "baseline_off_cmd": "cd /repo && cargo test --workspace --no-fail-fast --offline", "source_commits": [], "add_only": True},
  "engines": [
-  {"name": "S-grammar", "path": "engine/sx/nomsem.py", "serves_properties": ["C01", "C02", "C03", "C06", "C18"], "kind_free_text": "symbolic executor for the nom grammars read from /repo via engine/srcdump (syn); z3 QF_BV"},
+  {"name": "S-grammar", "path": "engine/sx/nomsem.py", "serves_properties": ["C01", "C02", "C03", "C06", "C08", "C18"], "kind_free_text": "symbolic executor for the nom grammars read from /repo via engine/srcdump (syn); z3 QF_BV"},
   {"name": "S-kernel", "path": "engine/sx/kernel.py", "serves_properties": ["C09", "C11", "C15", "C16"], "kind_free_text": "path-enumerating symbolic interpreter for small Rust functions read from the syn dump (engine/sx/kstd.py = std models); z3"},
   {"name": "Kani", "path": "kani/", "serves_properties": ["C18"], "kind_free_text": "Kani 0.68 / CBMC 6.11 harness crate with path dependencies on /repo crates"},
   {"name": "replay", "path": "replay/", "serves_properties": ["C01", "C02"], "kind_free_text": "Rust driver with path dependencies on /repo crates: replays solver models and validates the translator"},
